@@ -77,7 +77,12 @@ func runTestCasesForServer(
 		results.failedToStart(testCases, fmt.Errorf("error starting server: %w", err))
 		return
 	}
-	defer serverProcess.abort()
+	defer func() {
+		// Also on the early-return paths below: do not return (which frees this
+		// server's slot in the --max-servers budget) before the process has ended.
+		serverProcess.abort()
+		_ = serverProcess.result()
+	}()
 	serverProcess.whenDone(func(_ error) {
 		procCancel()
 	})
